@@ -267,12 +267,23 @@ JudgeTransfer(tr, T, ev) ==
                       /\ (\A i \in 1..Len(x) : x[i].v > 0),
        ~ok /\ ev.recs = <<>>),
     Cl("C07.accept", T.dev # "base" /\ valid /\ sized /\ refok /\ ref.out = "ok", ok),
-    Cl("C06.neverrefused", T.dev # "base" /\ valid /\ T.autosplit /\ refok /\ ref.out = "ok", ev.out # "invalidop"),
+    \* never refused for its size, with whatever exception (the volumes fit the labware: the reference run succeeds)
+    Cl("C06.neverrefused", T.dev # "base" /\ valid /\ T.autosplit /\ refok /\ ref.out = "ok", ok),
+    \* ... also where the unit of the trace does not allow the reference split to be computed: between two different labware
+    \* the source only falls and the destination only rises, so a feasible end state means every split is feasible
+    Cl("C06.neverrefused", T.dev # "base" /\ valid /\ T.autosplit /\ ~refok /\ a.src # a.dst
+                           /\ LET fin == ApplyTriples(T, a, x, vol) IN
+                              /\ \A i \in 1..Len(vol[a.src]) : fin[a.src][i] >= T.lw[a.src].minv \/ fin[a.src][i] = vol[a.src][i]
+                              /\ \A i \in 1..Len(vol[a.dst]) : fin[a.dst][i] <= T.lw[a.dst].maxv \/ fin[a.dst][i] = vol[a.dst][i],
+       ok),
     Cl("C06.nosplit", T.dev # "base" /\ valid /\ ~sized /\ refok /\ ref.out = "invalidop", ev.out = "invalidop"),
     Cl("C02.outcome", T.dev # "base" /\ valid /\ refok /\ ref.out \in {"overflow", "underflow"} /\ ~ev.tiesbig, ev.out = ref.out),
     Cl("C07.pairs", F.records /\ valid /\ ok, PairsOK(T, a, body)),
     Cl("C07.flows", F.records /\ valid /\ ok, FlowsOK(T, a, x, body)),
     Cl("C18.side", F.records /\ valid /\ ok /\ PairsOK(T, a, body), SideColumnsAscend(T, a, body)),
+    \* the flows on the level of volumes (also where the unit is too small for the two-decimal records to be compared):
+    \* every requested volume, however small, leaves its source and reaches its destination
+    Cl("C07.flowvol", T.dev # "base" /\ valid /\ ok, post.vol = ApplyTriples(T, a, x, vol)),
     Cl("C06.steps", F.records /\ valid, StepsOK(T, body)),
     Cl("C06.count", F.records /\ valid /\ ok /\ T.autosplit,
        Cardinality(PairStarts(body)) = SumSeq([i \in 1..Len(x) |-> NSteps(x[i].v, T.wlmax)])),
